@@ -100,6 +100,41 @@ theorem correct_matrix (id : Nat) (m : Matrix α) (r c : ν) (hw : (View.matrix 
       lens_cons, lens_nil]
     rfl
 
+theorem pair_of_length_two {idx : List Nat} (h : idx.length = 2) :
+    [idx.getD 0 0, idx.getD 1 0] = idx := by
+  match idx, h with
+  | [a, b], _ => rfl
+
+theorem shape_pair_of_length_two {sh : Shape ν} (h : sh.length = 2) :
+    [sh.getD 0 (default, 0), sh.getD 1 (default, 0)] = sh := by
+  match sh, h with
+  | [a, b], _ => rfl
+
+theorem matrixOf_lens (s : View ν α) (r c : ν) (h : s.shape.length = 2) :
+    lens (View.matrixOf s r c).shape = lens s.shape := by
+  have := shape_pair_of_length_two h
+  conv => rhs; rw [← this]
+  simp [View.shape]
+
+theorem correct_matrixOf (s : View ν α) (r c : ν) (ih : s.WF → Correct s)
+    (hw : (View.matrixOf s r c).WF) : Correct (View.matrixOf s r c) := by
+  simp only [View.WF] at hw
+  have hs := ih hw.1
+  have hl2 := hw.2.1
+  constructor
+  · have hg := goodShape_iff.1 hs.1
+    rw [goodShape_iff, matrixOf_lens s r c hl2]
+    refine ⟨?_, hg.2⟩
+    simp only [View.shape, namesOf_cons, namesOf_nil, List.nodup_cons, List.mem_cons, List.not_mem_nil,
+      or_false, not_false_eq_true, List.nodup_nil, and_true]
+    exact hw.2.2
+  · intro idx hl hbd
+    simp only [View.shape, List.length_cons, List.length_nil] at hl
+    have hl' : idx.length = s.shape.length := by omega
+    simp only [View.get, View.specGet, View.specCell, matrixOf_lens s r c hl2,
+      pair_of_length_two (by omega : idx.length = 2)]
+    rw [hs.get_eq hl' hbd]
+
 theorem correct_range (s : View ν α) (rs : List IndexRange) (ih : s.WF → Correct s)
     (hw : (View.range s rs).WF) : Correct (View.range s rs) := by
   simp only [View.WF] at hw
@@ -379,6 +414,7 @@ theorem View.correct (v : View ν α) : v.WF → Correct v := by
   induction v using View.ind with
   | tensor id t => exact correct_tensor id t
   | matrix id m r c => exact correct_matrix id m r c
+  | matrixOf s r c ih => exact correct_matrixOf s r c ih
   | range s rs ih => exact correct_range s rs ih
   | mask s ms ih => exact correct_mask s ms ih
   | index s p ih => exact correct_index s p ih
